@@ -45,6 +45,32 @@ func init() {
 				os.WriteFile(filepath.Join(ts.Root, "dl", name), data, 0644)
 			}
 			cc, _ := ts.DirectClient("admin", []byte("a"), "10.0.0.9:1234")
+			// aliases inside the folder, made by the real Make-Alias handler: of files that live outside it (the item
+			// must announce and deliver the TARGET's bytes), sometimes of a folder (announced as a folder item)
+			nAlias := r.Pick(0, 1, 1, 2)
+			os.MkdirAll(filepath.Join(ts.Root, "orig"), 0755)
+			for k := 0; k < nAlias; k++ {
+				name := fmt.Sprintf("al%d.txt", k)
+				data := r.Bytes(r.Pick(0, 1, 16, 100, 1000, 5000))
+				os.WriteFile(filepath.Join(ts.Root, "orig", name), data, 0644)
+				dst, rel := "dl", name
+				if r.Chance(40) {
+					dst, rel = "dl/sub", filepath.Join("sub", name)
+				}
+				if !c01MakeAlias(ts, cc, "orig", name, dst) {
+					c.Disagree("make-alias", "the make-alias request was refused")
+					return
+				}
+				contents[rel] = data
+			}
+			if r.Chance(25) {
+				os.MkdirAll(filepath.Join(ts.Root, "origdir"), 0755)
+				os.WriteFile(filepath.Join(ts.Root, "origdir", "inner.txt"), r.Bytes(10), 0644)
+				if !c01MakeAlias(ts, cc, "", "origdir", "dl") {
+					c.Disagree("make-alias", "the make-alias request for a folder was refused")
+					return
+				}
+			}
 			res, _, pan := ts.Call(cc, mkTran(hotline.TranDownloadFldr, 5, fld(hotline.FieldFileName, []byte("dl"))))
 			if pan != nil || len(res) != 1 || res[0].ErrorCode != [4]byte{} {
 				c.Disagree("folder-download-request", fmt.Sprint("request refused / panic: ", pan))
@@ -171,6 +197,9 @@ func init() {
 			c.Dist(fmt.Sprintf("folder-framing/items-sent-%d", min(sent, 4)))
 			if sent > 0 {
 				c.Nontrivial(script + fmt.Sprint(len(contents)))
+			}
+			if nAlias > 0 {
+				c.Dist("folder-framing/with-aliases")
 			}
 		}})
 	})
